@@ -160,7 +160,7 @@ printing: the plain and the alternate (#) Display form of numbers (corner values
             if w.tag == "l" && ctx.model().one("cv l wf") != "true" { ctx.notes.push("the description generated for units.toml + corpus/C12/frac_layer.toml is not well formed (model refuses to run)".into()); }
             let mut r = rng.fork(100 + wi as u64);
             for (v, u) in [((24.0, 30.0), "tsp"), ((1.5, 2.5), "kg"), ((0.25, 0.75), "cup"), ((7.5, 7.5), "tsp"), ((0.3125, 0.3125), "tsp"), ((3.5, 4.25), "kg"),
-                            ((2.55, 2.55), "lb"), ((20.5, 20.5), "lb"), ((10.5, 10.5), "oz"), ((0.26, 0.26), "tbsp"), ((3.5, 3.5), "kg"), ((2.5, 2.5), "kg"), ((0.3, 0.3), "ft"), ((12.5, 12.5), "cup")] {
+                            ((2.55, 2.55), "lb"), ((20.5, 20.5), "lb"), ((10.5, 10.5), "oz"), ((0.26, 0.26), "tbsp"), ((3.5, 3.5), "kg"), ((2.5, 2.5), "kg"), ((0.3, 0.3), "ft"), ((12.5, 12.5), "cup"), ((0.503, 0.503), "cup"), ((0.252, 0.252), "cup"), ((2.4, 2.4), "lb"), ((0.55, 0.55), "cup"), ((1.34, 1.34), "lb")] {
                 if w.conv.find_unit(u).is_none() { continue; }
                 let val = if v.0 == v.1 { Value::Number(Number::Regular(v.0)) } else { Value::Range { start: Number::Regular(v.0), end: Number::Regular(v.1) } };
                 let q = Quantity::new(val, Some(u.to_string()));
